@@ -29,7 +29,10 @@ def lin_case(rng, quick, i):
     if bt["min_x"] == "periodic":
         srcs.append({"kind": "plane", "axis": 2, "pos": 4, "dir": rng.choice("+-"), "pol": [1.0, 0.5, 0.0], "switch": {"start_time": 1}})
         srcs.append({"kind": "gauss", "axis": 2, "pos": 5, "dir": "+", "pol": [0.0, 1.0, 0.0], "radius": 1.5e-7})
-    spec = {"shape": [7, 7, 10], "spacing": 5e-8, "steps": T, "bt": bt, "thickness": 2, "sources": srcs,
+    # every third scene (the one with plane / Gaussian sources) contains a dispersive (Lorentz) slab: sources then go through their
+    # dispersion-corrected injection path, and the polarisation state is part of the linear system
+    blocks = [{"box": [[1, 6], [1, 6], [7, 9]], "eps": 2.25, "lorentz": {"w0": 4.0e15, "g": 1.0e14, "de": 1.5}, "name": "lor"}] if i % 3 == 0 else []
+    spec = {"shape": [7, 7, 10], "spacing": 5e-8, "steps": T, "bt": bt, "thickness": 2, "sources": srcs, "blocks": blocks,
             "detectors": [{"kind": "field", "box": [[2, 5], [2, 5], [3, 6]], "name": "fd", "opts": {"exact_interpolation": bool(i % 2)}},
                           {"kind": "phasor", "box": [[2, 4], [2, 4], [4, 6]], "name": "ph"},
                           {"kind": "energy", "box": [[2, 5], [2, 5], [3, 6]], "name": "en", "opts": {"as_slices": False}},
